@@ -330,7 +330,72 @@ pub fn c28(spec: &RunSpec, out: &Outcome) -> Vec<Violation> {
     for r in &out.reacquire {
         vs.push(v(format!("C28:reacquire:{r}"), "a task waited for a lock it already holds".to_string()));
     }
+    // O3 (literal clause "acquired in a single global order per lock"): the nested acquisitions
+    // observed in this run - "waited for B while holding A", whatever the modes and whichever
+    // tasks - must form an acyclic order over the locks. A cycle is the precondition of a
+    // deadlock whether or not this schedule happened to close it.
+    if let Some(cycle) = lock_order_cycle(&out.order_edges) {
+        vs.push(v(
+            format!("C28:lock-order-cycle:{}", cycle.join("->")),
+            format!("nested acquisitions observed in one run order these locks in a cycle; edges: {:?}", out.order_edges),
+        ));
+    }
     vs
+}
+
+/// Shortest cycle in the lock-order graph of a run (locks by type name, modes dropped), in a
+/// canonical rotation (starting at the lexicographically smallest lock), closed by repeating the
+/// first lock.
+pub fn lock_order_cycle(edges: &[(String, String)]) -> Option<Vec<String>> {
+    use std::collections::{BTreeMap, BTreeSet, VecDeque};
+    let strip = |s: &String| s.rsplit_once('.').map(|(a, _)| a.to_string()).unwrap_or_else(|| s.clone());
+    let mut g: BTreeMap<String, BTreeSet<String>> = BTreeMap::new();
+    for (a, b) in edges {
+        let (a, b) = (strip(a), strip(b));
+        if a != b {
+            g.entry(a).or_default().insert(b);
+        }
+    }
+    let mut best: Option<Vec<String>> = None;
+    for start in g.keys() {
+        // BFS from `start` back to `start`
+        let mut prev: BTreeMap<String, String> = BTreeMap::new();
+        let mut q = VecDeque::new();
+        q.push_back(start.clone());
+        let mut found = false;
+        while let Some(n) = q.pop_front() {
+            for m in g.get(&n).into_iter().flatten() {
+                if m == start {
+                    prev.insert("<close>".into(), n.clone());
+                    found = true;
+                    break;
+                }
+                if !prev.contains_key(m) && m != start {
+                    prev.insert(m.clone(), n.clone());
+                    q.push_back(m.clone());
+                }
+            }
+            if found {
+                break;
+            }
+        }
+        if found {
+            let mut path = vec![prev["<close>"].clone()];
+            while path.last().unwrap() != start {
+                let p = prev[path.last().unwrap()].clone();
+                path.push(p);
+            }
+            path.reverse();
+            // canonical rotation
+            let k = path.iter().enumerate().min_by_key(|(_, s)| (*s).clone()).map(|(i, _)| i).unwrap_or(0);
+            path.rotate_left(k);
+            path.push(path[0].clone());
+            if best.as_ref().map(|b| path.len() < b.len()).unwrap_or(true) {
+                best = Some(path);
+            }
+        }
+    }
+    best
 }
 
 pub fn judge(spec: &RunSpec, out: &Outcome) -> Vec<Violation> {
